@@ -176,8 +176,7 @@ class HeapEngine:
         self.rounds = rounds
 
     def summary(self, q: str) -> HeapSummary:
-        self.prog.func(q)
-        return self.summaries[q]
+        return self.summaries[self.prog.func(q).qname]
 
     # -- context sensitivity for constant flags: f(x, remove_mean=True) analyses f with `if remove_mean:` forced
     def forced_ifs(self, q: str, consts: Tuple[Tuple[str, object], ...]) -> Dict[int, str]:
